@@ -95,6 +95,58 @@ func (g *predGen) keyAtom() string {
 	}
 }
 
+// siblingPair: two atoms of the same shape over literals that differ in their
+// last byte only (the neighbouring byte value, or another stored key with the
+// same stem), joined by OR or AND: planners merge such regions (union hull,
+// common prefix, intersection), and that is where byte arithmetic goes wrong.
+func (g *predGen) siblingPair() string {
+	r := g.r
+	k := g.lit()
+	for try := 0; try < 8 && len(k) < 2; try++ {
+		k = g.lit()
+	}
+	if len(k) < 1 {
+		k = "k"
+	}
+	stem := k[:len(k)-1]
+	s := ""
+	for _, o := range g.keys {
+		if o != k && len(o) == len(k) && strings.HasPrefix(o, stem) && r.Chance(0.5) {
+			s = o
+			break
+		}
+	}
+	if s == "" {
+		last := k[len(k)-1]
+		switch {
+		case last == 0xff:
+			last = 0xfe
+		case last == '&' || last == '!' || last == '_': // the next byte would be a quote character
+			last += 2
+		default:
+			last++
+		}
+		s = stem + string([]byte{last})
+	}
+	if !isQuotable(s) {
+		s = stem + "x"
+	}
+	a, b := quote(k), quote(s)
+	op := pick(r, []string{" | ", " or ", " | ", " & ", " and "})
+	switch r.Intn(6) {
+	case 0, 1:
+		return "key ^= " + a + op + "key ^= " + b
+	case 2:
+		return "key = " + a + op + "key = " + b
+	case 3:
+		return "key >= " + a + op + "key < " + b
+	case 4:
+		return "key ^= " + a + op + "key = " + b
+	default:
+		return "(key between " + a + " and " + quote(k+"~") + ")" + op + "(key between " + b + " and " + quote(s+"~") + ")"
+	}
+}
+
 func prefixOf(r *Rng, k string) string {
 	if len(k) <= 1 {
 		return k
@@ -142,7 +194,7 @@ func (g *predGen) pred(depth int, keyBias float64) string {
 }
 
 func topPred(g *predGen) string {
-	if g.r.Chance(0.01) {
+	if g.r.Chance(0.015) {
 		// a long chain: many disjuncts (or conjuncts), one of them compound
 		n := g.r.Range(17, 24)
 		if g.r.Chance(0.3) {
@@ -151,22 +203,33 @@ func topPred(g *predGen) string {
 		op := pick(g.r, []string{" | ", " or ", " | ", " & "})
 		parts := make([]string, n)
 		pointOnly := g.r.Bool() // only equalities / IN lists: the whole clause pins a literal key set
+		// the guarded key is mentioned nowhere else in the chain (else the guard would not matter)
+		guarded := g.lit()
+		other := func() string {
+			for try := 0; try < 20; try++ {
+				if l := g.lit(); l != guarded {
+					return l
+				}
+			}
+			return guarded + "~"
+		}
 		for i := range parts {
 			if pointOnly {
 				if g.r.Bool() {
-					parts[i] = "key = " + quote(g.lit())
+					parts[i] = "key = " + quote(other())
 				} else {
-					parts[i] = "key in " + inList([]string{g.lit(), g.lit()})
+					parts[i] = "key in " + inList([]string{other(), other()})
 				}
 			} else {
 				parts[i] = g.keyAtom()
 			}
 		}
 		if pointOnly {
-			parts[g.r.Intn(n)] = "(key = " + quote(g.lit()) + " & " + g.opaqueAtom() + ")"
+			at := g.r.Intn(n)
 			if g.r.Bool() {
-				parts[0] = "(key = " + quote(g.lit()) + " & " + g.opaqueAtom() + ")"
+				at = 0
 			}
+			parts[at] = "(key = " + quote(guarded) + " & " + g.opaqueAtom() + ")"
 			return strings.Join(parts, pick(g.r, []string{" | ", " or "}))
 		}
 		parts[g.r.Intn(n)] = "(" + g.keyAtom() + " & " + g.opaqueAtom() + ")"
@@ -174,6 +237,13 @@ func topPred(g *predGen) string {
 			parts[0] = "(" + g.keyAtom() + " & " + g.opaqueAtom() + ")"
 		}
 		return strings.Join(parts, op)
+	}
+	if g.r.Chance(0.06) {
+		p := g.siblingPair()
+		if g.r.Chance(0.3) {
+			p = "(" + p + ") & " + g.opaqueAtom()
+		}
+		return p
 	}
 	p := g.pred(g.r.Range(0, 3), 0.7)
 	// strip one redundant outer pair of parentheses now and then: both forms must behave alike
